@@ -434,24 +434,7 @@ fn compare<T: Sc>(
 /// (which caller meets a transient failure is then the schedule's choice).
 fn concurrent_rule<T: Sc>(sc: &Scenario, rep: &mut RunReport, v: &VariantOut<T>, what: &str) {
     for st in &v.steps {
-        if let Extra::Concurrent { reference, observed, overlapped } = &st.extra {
-            let faulted = v.log[st.ev_from.min(v.log.len())..st.ev_to.min(v.log.len())].iter().any(|e| e.fault.is_some());
-            if faulted {
-                rep.probe("concurrent_queries_gated_by_fault");
-                continue;
-            }
-            rep.probe(if *overlapped { "concurrent_queries_overlapped" } else { "concurrent_queries_serialised" });
-            for (i, o) in observed.iter().enumerate() {
-                match o {
-                    Ok((s, j)) => {
-                        if s != &reference.0 || j != &reference.1 {
-                            rep.violate(sc, "SCHEDULE_DEPENDENCE", &format!("{what}/ConcurrentQueries"), format!("op {}: caller {i} of {} simultaneous callers saw a different {} than a caller querying alone", st.op, observed.len(), if s != &reference.0 { "state" } else { "Jacobian" }));
-                        }
-                    }
-                    Err(p) => rep.violate(sc, "PANIC", &format!("ConcurrentQueries@{}", panic_site(p)), p.clone()),
-                }
-            }
-        }
+        super::common::concurrent_rule(sc, rep, st, &v.log, "SCHEDULE_DEPENDENCE", &format!("{what}/ConcurrentQueries"));
     }
 }
 
